@@ -388,6 +388,11 @@ func (S05) RunTape(t *sim.Tape, st *sim.Stats, keepLog bool) *sim.Outcome {
 				if _, ok := storeStarted[pl.Binary()]; !ok {
 					storeStarted[pl.Binary()] = inv
 				}
+				// cidlink.Memory is keyed by multihash: a store in flight makes every link over that multihash loadable
+				mk := "mh:" + string(pl.(cidlink.Link).Hash())
+				if _, ok := storeStarted[mk]; !ok {
+					storeStarted[mk] = inv
+				}
 			}
 			pan := catch(func() { l, err = lsys.Store(linking.LinkContext{}, lp, n) })
 			if err != nil && d != nil && (errors.Is(err, syscall.ENAMETOOLONG) || (ncl > 1 && errors.Is(err, syscall.EEXIST))) {
@@ -471,6 +476,9 @@ func (S05) RunTape(t *sim.Tape, st *sim.Stats, keepLog bool) *sim.Outcome {
 			case res.err == nil && si == nil && !(bk == 1 && mhStored):
 				// never stored (nor aliased by multihash in cidlink.Memory) and nothing in flight
 				started, inflight := storeStarted[lb]
+				if bk == 1 && !inflight {
+					started, inflight = storeStarted["mh:"+string(l.(cidlink.Link).Hash())]
+				}
 				if !inflight || started > ret {
 					o.Fail("load-never-stored-succeeded", sig+" "+name, "%s of %s succeeded although nothing was ever stored under it", name, l)
 				}
